@@ -29,19 +29,43 @@ class RecordingFilter:
         return state, covariance
 
     def sensor_model(self, state, covariance, *, sensor_key, sensor_reading):
+        self.dts.append("S")
         return state, covariance
 
     def make_reading(self, key, **kw):
         return kw
 
 
-def float_steps(t0, t1, max_dt):
+def split_legs(events):
+    legs, cur = [], []
+    for ev in events:
+        if isinstance(ev, str) and ev == "S":
+            legs.append(cur)
+            cur = []
+        else:
+            cur.append(ev)
+    legs.append(cur)
+    return legs
+
+
+def float_steps(t0, t1, max_dt, ts=()):
+    """Real runtime in floats; returns the list of legs (one per reading + the final one), each a list of dts."""
     from formak import runtime
 
     f = RecordingFilter(float(max_dt))
     mf = runtime.ManagedFilter(f, float(t0), "s", "P")
-    mf.tick(float(t1))
-    return [float(d) for d in f.dts]
+    rds = [runtime.StampedReading(float(t), "a", v=1.0) for t in ts]
+    mf.tick(float(t1), readings=rds)
+    return [[float(d) for d in leg] for leg in split_legs(f.dts)]
+
+
+def violates_legs(t0, t1, max_dt, ts, legs):
+    probs = []
+    cur = t0
+    for target, leg in zip(list(ts) + [t1], legs):
+        probs += violates_float(cur, target, max_dt, leg)
+        cur = target
+    return probs
 
 
 def violates_float(t0, t1, max_dt, dts):
@@ -60,26 +84,27 @@ def violates_float(t0, t1, max_dt, dts):
     return probs
 
 
-def py_task(K, tier, seed):
+def py_task(K, tier, seed, nread=0):
     part = Part()
     part.program("runtime.ManagedFilter")
     part.fn("runtime.ManagedFilter.tick", "runtime.ManagedFilter._process_model")
     from formak import runtime
 
     t0, t1, md = z3.Real("t0"), z3.Real("t1"), z3.Real("max_dt")
-    assumes = [md >= qval(1e-9), md <= 10, t0 >= -1000, t0 <= 1000, t1 >= -1000, t1 <= 1000]
+    tsv = [z3.Real(f"ts{i}") for i in range(nread)]
+    assumes = [md >= qval(1e-9), md <= 10, t0 >= -1000, t0 <= 1000, t1 >= -1000, t1 <= 1000] + [z3.And(t >= -1000, t <= 1000) for t in tsv]
 
     def harness():
         f = RecordingFilter(SymReal(md))
         mf = runtime.ManagedFilter(f, SymReal(t0), "s", "P")
-        mf.tick(SymReal(t1))
+        rds = [runtime.StampedReading(SymReal(t), "a", v=1.0) for t in tsv]
+        mf.tick(SymReal(t1), readings=rds)
         return f.dts, mf.current_time
 
     leaves = explore(harness, assumes=assumes, kmax=K, max_paths=2000)
     part.leaves(leaves)
     tmo = tier_timeout_ms(tier)
-    delta = t1 - t0
-    key_base = f"py/K={K}"
+    key_base = f"py/K={K}/readings={nread}"
     ok_leaves = [l for l in leaves if l.status == "ok"]
     exc = [l for l in leaves if l.status == "exc"]
     if exc:
@@ -90,51 +115,61 @@ def py_task(K, tier, seed):
         return part.d
     reported = False
     for li, l in enumerate(ok_leaves):
-        dts, held = l.value
-        dts_t = [lift(d) for d in dts]
+        events, held = l.value
+        legs = split_legs(events)
         pc = assumes + l.pc
         claims = []
-        for i, d in enumerate(dts_t):
-            claims.append((f"step{i} points in the direction of travel", z3.And(z3.Implies(delta > 0, d > 0), z3.Implies(delta < 0, d < 0), z3.Implies(delta == 0, False))))
-            claims.append((f"|step{i}| <= max_dt", z3.And(d <= md, -d <= md)))
-        tot = z3.RealVal(0)
-        for d in dts_t:
-            tot = tot + d
-        claims.append(("sum of steps within 1e-9 of the time difference", z3.And(tot - delta <= qval(TOL), delta - tot <= qval(TOL))))
-        if not dts_t:
-            pass  # 'no step when the times coincide' holds trivially on a leaf without steps
+        cur = t0
+        for gi, (target, leg) in enumerate(zip(tsv + [t1], legs)):
+            delta = target - cur
+            dts_t = [lift(d) for d in leg]
+            for i, d in enumerate(dts_t):
+                claims.append((f"leg{gi} step{i} points in the direction of travel", z3.And(z3.Implies(delta > 0, d > 0), z3.Implies(delta < 0, d < 0), z3.Implies(delta == 0, False))))
+                claims.append((f"leg{gi} |step{i}| <= max_dt", z3.And(d <= md, -d <= md)))
+            tot = z3.RealVal(0)
+            for d in dts_t:
+                tot = tot + d
+            claims.append((f"leg{gi} sum of steps within 1e-9 of the time difference", z3.And(tot - delta <= qval(TOL), delta - tot <= qval(TOL))))
+            cur = target
+        nsteps = sum(len(g) for g in legs)
         for nm, cl in claims:
             q = solve(pc + [z3.Not(cl)], tmo)
-            part.record(q, f"{key_base}/leaf{li}[{len(dts_t)} steps]: {nm}")
+            part.record(q, f"{key_base}/leaf{li}[{nsteps} steps]: {nm}")
             if q.status == "sat" and not reported:
                 # replay witness: moderate max_dt, times on a dyadic grid
                 vars_ = {"t0": t0, "t1": t1, "max_dt": md}
-                q2 = solve(pc + [z3.Not(cl), md >= qval(0.01), md <= 1] + dyadic_box({"t0": t0, "t1": t1}, -8, 8, 16) + dyadic_box({"max_dt": md}, 0, 1, 64), 10000)
+                tvars = {"t0": t0, "t1": t1}
+                for i, t in enumerate(tsv):
+                    vars_[f"ts{i}"] = t
+                    tvars[f"ts{i}"] = t
+                q2 = solve(pc + [z3.Not(cl), md >= qval(0.01), md <= 1] + dyadic_box(tvars, -8, 8, 16) + dyadic_box({"max_dt": md}, 0, 1, 64), 10000)
                 cands = []
                 if q2.status == "sat":
                     cands.append(env_from_model(q2.model, vars_))
                 cands.append(env_from_model(q.model, vars_))
                 for e in cands:
                     part.d["witnesses"] += 1
+                    tsf = [e[f"ts{i}"] for i in range(nread)]
                     try:
-                        got = float_steps(e["t0"], e["t1"], e["max_dt"])
-                        probs = violates_float(e["t0"], e["t1"], e["max_dt"], got)
+                        got = float_steps(e["t0"], e["t1"], e["max_dt"], tsf)
+                        probs = violates_legs(e["t0"], e["t1"], e["max_dt"], tsf, got)
                     except Exception as ex:
                         got, probs = None, [f"raises {type(ex).__name__}: {ex}"]
                     if probs:
                         direction = "backward" if e["t1"] < e["t0"] else "forward"
-                        key = f"py/_process_model/{direction}"
-                        path = write_replay(PID, {"key": key, "info": {"kind": "py"}, "inputs": e, "steps": got, "problems": probs})
-                        part.violation(key, f"Python runtime: t0={e['t0']} -> t1={e['t1']} max_dt={e['max_dt']}: steps {got}: {probs[0]}", path)
+                        key = f"py/_process_model/{direction}" if nread == 0 else f"py/tick-with-reading/{direction}"
+                        path = write_replay(PID, {"key": key, "info": {"kind": "py"}, "inputs": e, "ts": tsf, "steps": got, "problems": probs})
+                        part.violation(key, f"Python runtime: t0={e['t0']} readings at {tsf} -> t1={e['t1']} max_dt={e['max_dt']}: steps per leg {got}: {probs[0]}", path)
                         reported = True
                         break
                 else:
                     part.d["inconclusive"].append(f"{key_base}/leaf{li}: {nm} sat, not reproduced in floats")
-        # held time after a tick without readings is unchanged (hold only at readings) - C11's subject, recorded as a sample
     # vacuity: at least one leaf each: forward with steps, backward with steps, no steps
     kinds = {"forward": 0, "backward": 0, "none": 0}
+    delta = t1 - (tsv[-1] if tsv else t0)
     for l in ok_leaves:
         dts, _ = l.value
+        dts = split_legs(dts)[-1]
         if not dts:
             kinds["none"] += 1
             continue
@@ -148,7 +183,7 @@ def py_task(K, tier, seed):
         if v == 0:
             part.harness_error(f"{key_base}: vacuity: no leaf of kind {k_}")
     part.extra("py_leaf_kinds", [kinds])
-    part.sample({"impl": "python", "K": K, "leaves": len(ok_leaves), "cut": sum(1 for l in leaves if l.status == "cut"), "example_steps": [str(z3.simplify(lift(d))) for d in ok_leaves[-1].value[0]][:4]})
+    part.sample({"impl": "python", "K": K, "leaves": len(ok_leaves), "cut": sum(1 for l in leaves if l.status == "cut"), "example_steps": [str(z3.simplify(lift(d))) for d in ok_leaves[-1].value[0] if not isinstance(d, str)][:4]})
     return part.d
 
 
@@ -159,7 +194,7 @@ def _dispatch(fn, args):
 def run(tier, seed):
     rep = Report(PID, tier, seed, "other")
     K = 2 if tier == "quick" else 4
-    tasks = [(py_task, (K, tier, seed))]
+    tasks = [(py_task, (K, tier, seed)), (py_task, (1 if tier == "quick" else 2, tier, seed, 1))]
     try:
         from . import c10_cpp
 
@@ -187,12 +222,13 @@ def replay(path):
 
         return c10_cpp.replay(r)
     e = r["inputs"]
+    tsf = r.get("ts", [])
     try:
-        got = float_steps(e["t0"], e["t1"], e["max_dt"])
+        got = float_steps(e["t0"], e["t1"], e["max_dt"], tsf)
     except Exception as ex:
         print(f"REPRODUCED: raises {type(ex).__name__}: {ex}")
         return 1
-    probs = violates_float(e["t0"], e["t1"], e["max_dt"], got)
+    probs = violates_legs(e["t0"], e["t1"], e["max_dt"], tsf, got)
     print("steps", got)
     if probs:
         print("REPRODUCED:", probs)
